@@ -1,6 +1,6 @@
 """C04 Row polarity and orientation constraints are honoured."""
 import tracecheck
-from checks.common import run_plan, first, all_of, moved, model_replay_validate, replay_cases
+from checks.common import run_plan, first, all_of, moved, model_replay_validate, replay_cases, small_scope
 
 LEVEL = "model_checking"
 
@@ -27,6 +27,8 @@ def run(chk):
     # the code's polarity table / opposite-row function against the generator-based algebra (exhaustive)
     replay_cases(chk, "OrientCases", "OrientCases", "polarity x row orientation table and orientation algebra")
     model_replay_validate(chk, "DetailedRows", "DetailedRows_orient_" + chk.tier, "row lists of detailed placement: every feasible swap/insert sequence (orient scope)", ("C04",))
+    small_scope(chk, "C04", lambda ch, runs: [nontrivial(ch, {"scen": "legcase"}, rid, evs) or ch.count() for rid, evs in runs.items()],
+                cfg=chk.pick("LegalizeCases_pol", "LegalizeCases_thorough"))
     run_plan(chk, "C04", plan, nontrivial)
     chk.cov["rule"] = ("exhaustive table: every (polarity, row orientation) pair and every orientation replayed into cellOrientationInRow / "
                        "oppositeRowOrientation / isTurn; traces: legalize and placeDetailed (every Detailed callback) on random circuits with all five "
